@@ -94,12 +94,30 @@ Proof. exact @chunk_phases_lossless. Qed.
 Print Assumptions C14_update_lossless.
 
 Theorem C14_update_monitor_sound :
-  forall table st phases st' ls tmpl sets slices deleted,
+  forall table st phases st' ls (c : gcase),
     chunk_phases N.eqb (tbl_hash table) st phases = (st', Some ls) ->
-    hmonitor {| gc_tmpl := tmpl; gc_sets := sets; gc_slices := slices; gc_deleted := deleted;
-                gc_want := phases; gc_got := got_of st' ls |} = true.
+    gc_want c = phases -> gc_got c = got_of st' ls -> hmonitor c = true.
 Proof. exact hmonitor_sound. Qed.
 Print Assumptions C14_update_monitor_sound.
+
+(** Redeploying the unchanged package (same phases, same chunks) after a deploy, for every hash function and
+    whatever slices existed before: every chunk is found under the name it got the first time, nothing is created
+    and the store is unchanged ("slice names are determined by content"). *)
+Theorem C14_redeploy_unchanged :
+  forall (C : Type) (ceqb : C -> C -> bool), (forall x y, ceqb x y = true <-> x = y) ->
+  forall (hash : C -> N -> N) phases (st st1 : nstore C) ls,
+    chunk_phases ceqb hash st phases = (st1, Some ls) ->
+    chunk_phases ceqb hash st1 phases = (st1, Some (map (@reused) ls)).
+Proof. exact @redeploy_unchanged. Qed.
+Print Assumptions C14_redeploy_unchanged.
+
+Theorem C14_redeploy_monitor_sound :
+  forall table st phases st1 ls,
+    chunk_phases N.eqb (tbl_hash table) st phases = (st1, Some ls) ->
+    exists ls2, chunk_phases N.eqb (tbl_hash table) st1 phases = (st1, Some ls2) /\
+      forall c : gcase, gc_tmpl c = names_of ls2 -> gc_prev c = names_of ls -> gc_created c = created_of ls2 -> rmonitor c = true.
+Proof. exact rmonitor_sound. Qed.
+Print Assumptions C14_redeploy_monitor_sound.
 
 Example C14_slice_names_satisfiable :
   reconcile_slice N.eqb (fun c cc => c + cc) [(5, {| es_content := 4; es_ctrl := true |}); (6, {| es_content := 5; es_ctrl := false |})] 5
@@ -142,9 +160,8 @@ Example C14_gc_satisfiable :
 Proof. reflexivity. Qed.
 
 Theorem C14_gc_monitor_sound :
-  forall tmpl sets slices want got,
-    gmonitor {| gc_tmpl := tmpl; gc_sets := sets; gc_slices := slices; gc_deleted := slice_gc tmpl sets slices;
-                gc_want := want; gc_got := got |} = true.
+  forall c : gcase,
+    gc_deleted c = slice_gc (gc_tmpl c) (gc_sets c) (gc_slices c) -> gwf c = true -> gmonitor c = true.
 Proof. exact gmonitor_sound. Qed.
 Print Assumptions C14_gc_monitor_sound.
 
